@@ -92,6 +92,11 @@ func c09Check(expr string, doc interface{}) {
 // VerifH_C09_Builtins: every built-in with 0, 1 and 2 arguments of every kind (and a third argument
 // from a small menu): Eval returns (value | ErrUndefined | error), never panics, never hangs.
 func VerifH_C09_Builtins() {
+	c09Check(c09BuiltinExpr(len(c09Args)), c09Doc())
+}
+
+// c09BuiltinExpr picks a built-in, an arity 0..3 and argument kinds from the first nargs kinds.
+func c09BuiltinExpr(nargs int) string {
 	f := c09Builtins[verifChoose(len(c09Builtins))]
 	arity := verifChoose(4)
 	expr := "$" + f + "("
@@ -100,7 +105,7 @@ func VerifH_C09_Builtins() {
 		if i > 0 {
 			expr += ", "
 		}
-		menu := c09Args
+		menu := c09Args[:nargs]
 		if arity == 3 {
 			menu = small
 			if i == 2 {
@@ -109,8 +114,7 @@ func VerifH_C09_Builtins() {
 		}
 		expr += menu[verifChoose(len(menu))]
 	}
-	expr += ")"
-	c09Check(expr, c09Doc())
+	return expr + ")"
 }
 
 var c09NodeTemplates = []string{
@@ -121,9 +125,13 @@ var c09NodeTemplates = []string{
 
 // VerifH_C09_Nodes: every node type with sub-expressions of every kind in every slot.
 func VerifH_C09_Nodes() {
+	c09Check(c09NodeExpr(len(c09Args)), c09Doc())
+}
+
+func c09NodeExpr(nargs int) string {
 	t := c09NodeTemplates[verifChoose(len(c09NodeTemplates))]
-	x := c09Args[verifChoose(len(c09Args))]
-	y := c09Args[verifChoose(len(c09Args))]
+	x := c09Args[verifChoose(nargs)]
+	y := c09Args[verifChoose(nargs)]
 	expr := ""
 	for i := 0; i < len(t); i++ {
 		switch t[i] {
@@ -135,7 +143,7 @@ func VerifH_C09_Nodes() {
 			expr += t[i : i+1]
 		}
 	}
-	c09Check(expr, c09Doc())
+	return expr
 }
 
 // VerifH_C09_Numeric: numeric built-ins and size-like parameters on symbolic numbers (any finite
@@ -149,6 +157,25 @@ func VerifH_C09_Numeric() {
 	if t == "$pad(\"ab\", x)" || t == "[x..y]" {
 		// sizes bounded so that termination is expected within the budget
 		verifAssume(x > -8 && x < 8 && y > -8 && y < 8)
+	}
+	c09Check(t, map[string]interface{}{"x": x, "y": y, "arr": []interface{}{1.0, 2.0, 3.0}})
+}
+
+// VerifH_C09_NumericEdges: the same templates (plus two-argument $round and $formatBase) with both
+// operands drawn from the edges of the double range, where library functions are run exactly
+// instead of through their symbolic models.
+func VerifH_C09_NumericEdges() {
+	edges := []float64{0, math.Copysign(0, -1), 1, -1, 2, 0.5, -0.5, 10, -10, 309, -309, -308, 1e308, -1e308, 1.5e308, 5e-324, 1e-320, 9007199254740993, -9223372036854775808, 1e21, 36, 0.49999999999999994}
+	x := edges[verifChoose(len(edges))]
+	y := edges[verifChoose(len(edges))]
+	templates := []string{"$abs(x)", "$floor(x)", "$ceil(x)", "$sqrt(x)", "$power(x, y)", "$round(x)", "$round(x, y)", "$formatBase(x, y)", "$substring(\"héllo\", x, y)", "$split(\"a b\", \" \", x)",
+		"x + y", "x * y", "x / y", "x % y", "-x", "$sum([x, y])", "$average([x, y])", "$max([x, y])", "arr[x]", "arr[[x, y]]", "$number($string(x))", "$string(x)", "$formatNumber(x, \"#,##0.00\")", "$formatNumber(x, \"0.0e0\")",
+		"$fromMillis(x)", "$string(x / y)", "[x..y]", "$pad(\"ab\", x)"}
+	t := templates[verifChoose(len(templates))]
+	if t == "$pad(\"ab\", x)" || t == "[x..y]" {
+		if !(x > -400 && x < 400 && y > -400 && y < 400) {
+			return // sizes bounded so that termination is expected within the budget
+		}
 	}
 	c09Check(t, map[string]interface{}{"x": x, "y": y, "arr": []interface{}{1.0, 2.0, 3.0}})
 }
